@@ -485,7 +485,19 @@ func (e *envelopeEncryption) loadIntermediateKey(ctx context.Context, meta KeyMe
 
 	defer sk.Close()
 
-	return e.intermediateKeyFromEKR(sk, ekr)
+	ik, err := e.intermediateKeyFromEKR(sk, ekr)
+	if err != nil {
+		return nil, err
+	}
+
+	// An IK is only valid if its parent is valid. A key loaded here (for decryption) may be picked
+	// up from the cache as the latest key for encryption, which must not happen if its SK is revoked
+	// or expired, so flag it the same way a revoked IK would be: usable for reads, reloaded for writes.
+	if internal.IsKeyInvalid(sk, e.Policy.ExpireKeyAfter) {
+		ik.SetRevoked(true)
+	}
+
+	return ik, nil
 }
 
 // Close frees all memory locked by the keys in the session. It should be called
